@@ -360,11 +360,25 @@ def _check_sequential(case, labels, worker):
   seen_after_clear = False
   cleared_keys = set()
   for op in case['ops']:
-    on_worker = len(op) > 3 and op[3] % 2 == 1 if op[0] == 'single' else (
+    on_worker = len(op) > 3 and op[3] % 2 == 1 if op[0] in ('single', 'rebind') else (
         len(op) > 2 and op[2] % 2 == 1)
     run = worker.run if on_worker else (lambda fn: fn())
     if on_worker:
       labels.add('op-on-second-thread')
+    if op[0] == 'rebind':
+      # the constructor binding of a singleton scope is made again (the same config text parsed a
+      # second time, or bind_parameter with the value it already has): the configuration is the
+      # same one, the object lives on
+      key = KEYS[op[1] % len(KEYS)]
+      line = f"{key}/gin.singleton.constructor = @{'c18ctor' if key == 'k1' else 'c18ctor2'}"
+      if op[2] % 2 == 0:
+        run(lambda: gin.parse_config(line))
+      else:
+        run(lambda: gin.bind_parameter(
+            (key, 'gin.singleton', 'constructor'),
+            gin.query_parameter(f'{key}/gin.singleton.constructor')))
+      labels.add('constructor-bound-again')
+      continue
     if op[0] == 'clear':
       def do_clear():
         gin.clear_config(clear_constants=bool(op[1] % 2))
@@ -433,7 +447,9 @@ def _threads_case(draw):
 def _sequential_case(draw):
   op = st.one_of(st.tuples(st.just('single'), st.integers(0, 1), st.integers(0, 1),
                            st.integers(0, 1)).map(list),
-                 st.tuples(st.just('clear'), st.integers(0, 1), st.integers(0, 1)).map(list))
+                 st.tuples(st.just('clear'), st.integers(0, 1), st.integers(0, 1)).map(list),
+                 st.tuples(st.just('rebind'), st.integers(0, 1), st.integers(0, 1),
+                           st.integers(0, 1)).map(list))
   return {'kind': 'sequential', 'ops': draw(st.lists(op, min_size=1, max_size=8))}
 
 
@@ -452,5 +468,20 @@ def _record_growth_case(draw):
   return {'kind': 'threads', 'programs': programs, 'schedule': schedule}
 
 
+@st.composite
+def _flaky_race_case(draw):
+  """Three or four threads use, for the first time, the singleton whose constructor fails once:
+  one use fails while others are waiting or arriving."""
+  n = draw(st.sampled_from([3, 3, 4]))
+  programs = [[['flaky-single', draw(st.integers(0, 1))]] + draw(st.lists(
+      st.sampled_from([['flaky-single', 0], ['flaky-single', 1], ['read'], ['refcall', 0]]),
+      max_size=2)) for _ in range(n)]
+  schedule = {'t': draw(st.lists(st.integers(0, 3), max_size=60)),
+              's': draw(st.integers(1, 2**31)), 'n': draw(st.sampled_from([300, 560, 1500])),
+              'burst': draw(st.booleans())}
+  return {'kind': 'threads', 'programs': programs, 'schedule': schedule}
+
+
 def strategy():
-  return st.one_of(_threads_case(), _threads_case(), _record_growth_case(), _sequential_case())
+  return st.one_of(_threads_case(), _threads_case(), _record_growth_case(), _sequential_case(),
+                   _flaky_race_case())
